@@ -688,6 +688,49 @@ def gen_scripts(thorough):
                                 b.wait(3)
                         b.op("peer_close")
                         finish(b, started, "unsolicited-ccr", "req1", pos=pos, mid=mid, end=end)
+    # an UNWANTED message — the late reply of a cancelled caller, a reply-like message with an id nobody awaits, a custom message, a tag
+    # report with no handler registered — in every payload size class around the buffering limit: 0, small, 64 KiB, limit-1, limit,
+    # limit+1, 1 MiB (thorough: more), with and without another request in flight whose own small reply follows. It is discarded,
+    # the stream stays frame-aligned: the other caller gets exactly its reply, a later request is served, a keep-alive is acknowledged.
+    lim = cx.MAXBUF
+    for n in ((0, 5, 65536, lim - 1, lim, lim + 1, 1 << 20) if not thorough else (0, 1, 5, 4096, 65535, 65536, 65537, lim - 1, lim, lim + 1, lim + 4097, 1 << 20, (1 << 21) + 3)):
+        for what in ("late-reply", "unknown-id", "custom", "report"):
+            for other in (True, False):
+                if not other and not thorough and n not in (0, lim, lim + 1):
+                    continue
+                for version in ((1,) if not thorough else (1, 2)):
+                    b = cc.SB("c09-unwanted-%s-n%d-%s-v%d" % (what, n, "other-inflight" if other else "alone", version), version=version)
+                    b.connect()
+                    base = b.nseen
+                    b.send(1, 20, 8, 501)
+                    started = [1]
+                    if other:
+                        b.send(2, 21, 9, 502)
+                        started.append(2)
+                    if what == "late-reply":
+                        b.cancel(1)
+                    fr = {"late-reply": dict(typ=30, id=base), "unknown-id": dict(typ=32, id=base + 50), "custom": dict(typ=1023, id=4000000001),
+                          "report": dict(typ=61, id=4000000002)}[what]
+                    b.steps.append(dict(op="peer_send", ver=version, pl=dict(k="tag", len=n, tag=503 if n else 0), **fr))
+                    if other:
+                        b.wait(2)                               # still waiting, undisturbed
+                        b.reply_to(2, 31, 7, 504)
+                        b.wait(2)
+                    if what != "late-reply":
+                        b.reply_to(1, 30, 6, 505)
+                        b.wait(1)
+                    b.send(3, 22, 4, 506)                       # a later request is served on the same stream
+                    b.reply_to(3, 32, 5, 507)
+                    b.wait(3)
+                    started.append(3)
+                    b.keepalive(7707)
+                    b.expect()                                  # ... and a keep-alive is acknowledged
+                    b.op("state")
+                    b.op("peer_close")
+                    # (the extracted model is slow on megabyte frames and the variant search runs it 8 times: only the late replies around
+                    # the limit are compared with it, the rest is judged by the predicate on Go's run)
+                    finish(b, started, "unwanted-size", "req1", n=n, what=what, other=other,
+                           nocompare=(n > 65536 and not thorough and not (what == "late-reply" and other and n <= lim + 1)))
     # the reader goes QUIET in the middle of a frame (header complete, payload not: after the header, in the payload, one byte before the
     # end) — the reply of the caller that is about to leave, the reply of ANOTHER caller, a reply nobody waits for, a custom message —
     # and during that window a caller's context is cancelled / the client is closed / a new request is submitted. The cancelled caller
@@ -782,6 +825,32 @@ def pred_script(s, g):
             extra.append(("cancelled-caller-does-not-return", "step %d: caller %d had not returned after its context was cancelled (every goroutine "
                           "parked) (script %s)" % (i, st["caller"], s["id"])))
             break
+    if fam == "unwanted-size":
+        what = []
+        for i, (st, o) in enumerate(zip(steps, obs)):
+            if st["op"] in ("peer_send", "reply", "keepalive") and o.get("st") != "ok":
+                what.append("step %d: the client did not take the reader's frame (typ %s): %s" % (i, st.get("typ", 62), o.get("st")))
+                break
+        for c in (2, 1, 3):
+            if c == 1 and s["what"] == "late-reply":
+                continue
+            w = [o.get("res") for st, o in zip(steps, obs) if st["op"] == "wait_caller" and st["caller"] == c]
+            if w and "ok" not in w[:2]:
+                what.append("caller %d (%s) got %s instead of its reply" % (c, {2: "in flight when the unwanted message arrived", 1: "in flight when the unwanted message arrived",
+                                                                                3: "submitted afterwards"}[c], w[:2]))
+        ack = [o for st, o in zip(steps, obs) if st["op"] == "expect_frame"]
+        if not ack or ack[-1].get("st") != "ok" or ack[-1].get("typ") != cc.T_ACK:
+            what.append("the keep-alive sent afterwards was not acknowledged (%s)" % (ack[-1].get("st") if ack else None))
+        what += [t for _, t in cc.pred_c03(view)]
+        what += ["%s still blocked after the connection ended" % b[0] for b in bad]
+        if what:
+            cls = ("0" if s["n"] == 0 else "small" if s["n"] < 65536 else "64KiB" if s["n"] < cx.MAXBUF - 1 else
+                   "limit-1" if s["n"] == cx.MAXBUF - 1 else "limit" if s["n"] == cx.MAXBUF else "limit+1" if s["n"] == cx.MAXBUF + 1 else "beyond-limit")
+            return extra + [("unwanted-message-disturbs-stream:%s:%s" % (s["what"], cls), "%s (script %s: %s with a %d-byte payload, buffering limit %d, %s)" % (
+                "; ".join(dict.fromkeys(what)), s["id"], {"late-reply": "the late reply of a cancelled caller", "unknown-id": "a reply-like message with an id nobody awaits",
+                                                           "custom": "a custom message without a handler", "report": "a tag report without a handler"}[s["what"]],
+                s["n"], cx.MAXBUF, "another request in flight" if s["other"] else "no other request in flight"))]
+        return extra
     if fam == "quiet-midframe":
         what = []
         cut_at = next(i for i, st in enumerate(steps) if st["op"] == "peer_send" and st.get("cut") is not None)
